@@ -26,6 +26,11 @@
   Store level:
     redeliver_idempotent, redeliver_prefix, redeliver_twice                                                  (full)
 
+  context.data (candidate list):
+    context_replace_atomic, context_tmp_never_read, context_first_start_atomic   write-temp-then-rename
+                             (current code, /repo commit 298fcc8): restart reads exactly old or new      (full)
+    context_inplace_refuted, context_created_empty_refuted   rewrite in place (code before 298fcc8)     (refutations)
+
   Protocol level (record granularity, model at the end of `LemoModel.Wal`; NOT repaired in /repo):
     stable_after_crash_partial   every crash point outside the window "first record of the batch durable …
                                  SetCurrentBlock executed" recovers to the previous or to the new state     (_partial)
@@ -525,6 +530,50 @@ theorem recoverBytes_torn_refuted_panic :
     recoverBytesLegacy (Store.empty.apply witness.r) ((encodeRecord witness.ts witness.crc witness.r).take 19) = none := by
   unfold recoverBytesLegacy recoverWith
   rw [scan_torn_total_refuted_error]
+
+/-! ## context.data: atomic replacement -/
+
+/-- **context_replace_atomic**: for every crash point of the write-temp-then-rename protocol the content
+    read back on restart is exactly the old content or exactly the new content — whatever state the
+    temp file was left in (`ctxLoad` does not depend on it). -/
+theorem context_replace_atomic (fs : CtxFs) (new : Bytes) (cp : CtxCrashPoint) :
+    ctxLoad (ctxCrash fs new cp) = ctxLoad fs ∨ ctxLoad (ctxCrash fs new cp) = some new := by
+  cases cp with
+  | before => exact Or.inl rfl
+  | tmpWritten k => exact Or.inl rfl
+  | renamed => exact Or.inr rfl
+
+/-- a stale temp file is never read: two states that differ only in the temp file load identically,
+    and the next flush does not depend on it either -/
+theorem context_tmp_never_read (m : Option Bytes) (t t' : Option Bytes) (new : Bytes) (cp : CtxCrashPoint) :
+    ctxLoad ⟨m, t⟩ = ctxLoad ⟨m, t'⟩ ∧
+    ctxLoad (ctxCrash ⟨m, t⟩ new cp) = ctxLoad (ctxCrash ⟨m, t'⟩ new cp) := by
+  cases cp <;> exact ⟨rfl, rfl⟩
+
+/-- first start: `context.data` absent. No crash point makes an empty (or partial) file visible under
+    the final name: it is absent, or complete. -/
+theorem context_first_start_atomic (t : Option Bytes) (new : Bytes) (cp : CtxCrashPoint) :
+    ctxLoad (ctxCrash ⟨none, t⟩ new cp) = none ∨ ctxLoad (ctxCrash ⟨none, t⟩ new cp) = some new := by
+  cases cp with
+  | before => exact Or.inl rfl
+  | tmpWritten k => exact Or.inl rfl
+  | renamed => exact Or.inr rfl
+
+/-- **refutation, code before fix 298fcc8** (rewrite in place): old file `01 02 03 04`, new content
+    `09 09 09 09 09 09`, crash after 2 bytes: the restart reads `09 09 03 04` — neither the old nor the new
+    content. -/
+theorem context_inplace_refuted :
+    ¬ (∀ (fs : CtxFs) (new : Bytes) (cp : CtxCrashPointLegacy),
+        ctxLoad (ctxCrashLegacy fs new cp) = ctxLoad fs ∨ ctxLoad (ctxCrashLegacy fs new cp) = some new) := by
+  intro h
+  have := h ⟨some [1, 2, 3, 4], none⟩ [9, 9, 9, 9, 9, 9] (.overwritten 2)
+  revert this
+  decide
+
+/-- **refutation, code before fix 298fcc8** (first start): the empty file created before the first flush
+    is visible to the restart — it is neither "absent" nor the flushed content. -/
+theorem context_created_empty_refuted :
+    ctxLoad (ctxCrashLegacy ⟨none, none⟩ [0, 0, 0, 8] .created) = some [] := rfl
 
 /-- a two-record promotion: block 1 and one account whose balance changes from 10 to 20 -/
 def wDisk : Disk :=
